@@ -2,7 +2,7 @@
 # all_clean.sh [tier] : every registered check on the unchanged tree; all must exit 0 without a VIOLATION line.
 cd /verif; tier=${1:-quick}; bad=0
 for p in C01 C02 C03 C04 C05 C06 C07 C08 C09 C10 C11 C12 C13 C14 C15 C16 C17 C18 C19; do
-  out=$(./bin/vcheck -prop $p -tier $tier 2>&1); rc=$?
+  out=$(${VCHECK:-./bin/vcheck} -verif /verif -prop $p -tier $tier 2>&1); rc=$?
   line=$(echo "$out" | grep -E "^$p (quick|thorough):")
   nv=$(echo "$out" | grep -c '^VIOLATION')
   echo "rc=$rc violations=$nv $line"
